@@ -80,3 +80,12 @@ func ZZ_C10_gc_keeps_managed_pod() {
 		zz.Reach("managed")
 	}
 }
+
+// C10 (an interface is never taken from a live pod): the collector's verdict
+// "this record can go" was formed on a listed snapshot; it must be written
+// with the snapshot's resourceVersion (a conflict-checked status update), so
+// that it is rejected when the record was re-bound to a re-created pod in
+// between - an unconditional patch would land on the live pod's record.
+// Same exploration as ZZ_C11_gc_cr_podenis.
+// zz:noreplay time.Now is a symbolic clock under the engine
+func ZZ_C10_gc_verdict_conflict_checked() { ZZ_C11_gc_cr_podenis() }
